@@ -29,9 +29,9 @@ ASSUMPTIONS = [
     "open known finding C13-late-by-one-float-quotient is recognised by mechanism only",
 ]
 NSHARDS = {"quick": 16, "thorough": 16}
-K = {"quick": 2000, "thorough": 20000}
-N_RANDOM = {"quick": 40, "thorough": 800}
-N_ROUNDTRIP = {"quick": 8, "thorough": 150}
+K = {"quick": 2000, "thorough": 60000}
+N_RANDOM = {"quick": 40, "thorough": 5000}
+N_ROUNDTRIP = {"quick": 8, "thorough": 600}
 REQUIRE = {"texts:on_grid_exact_decimal": 10000, "texts:k_times_fl": 10000, "texts:fl_k_over_tps": 10000, "texts:off_grid": 2000,
            "texts:near_grid": 500, "texts:equal_arrivals": 500, "texts:beyond_end": 100, "texts:large": 10,
            "roundtrip_pipelines": 500, "deliveries_compared": 40000, "texts:close_pairs": 60}
